@@ -5,14 +5,19 @@ HERE = os.path.dirname(os.path.abspath(__file__))
 
 
 def harness_files(tier, seed):
-    return [os.path.join(HERE, 'hC05.py')]
+    files = [os.path.join(HERE, 'hC05.py')]
+    if tier == 'thorough':
+        # the 24 depth-3 type expressions drawn from the grammar with VERIF_SEED (props/gen_types.py), under this property's oracle
+        os.environ['VERIF_SEED'] = str(seed)
+        files.append(os.path.join(HERE, 'hC05g.py'))
+    return files
 
 
 META = dict(
     bounds="data d: the generic depth-1 and type-directed near-valid values of props/shared.py; per dataclass configuration keys chosen "
            "by the solver among the name forms, leaf values of 6 kinds",
     configs="the 45 types of the shared table that have a serialised form + 7 dataclass configurations (tuple/struct output x input "
-            "layouts, class rename, in_rename/out_rename, aliases, field rename, in_names/out_name, keyword-only, exclude, nested)",
+            "layouts, class rename, in_rename/out_rename, aliases, field rename, in_names/out_name, keyword-only, exclude, nested) + thorough tier: 24 type expressions of nesting depth 3 drawn from the grammar with VERIF_SEED (props/gen_types.py), type-directed values with 3 symbolic leaf slots, under this property's oracle",
     stubs=[],
     outside=["configurations where the user set out_name outside in_names or out_format outside in_format (excluded by the statement)",
              "untagged unions whose members overlap on the serialised form (left-most member wins by C11)",
